@@ -133,7 +133,7 @@ Qed.
 Print Assumptions c01_noise_completed_reports_remote_key.
 
 (* undisturbed honest runs complete exactly when the prologues are equal and the
-   expected-peer settings admit the remote (so the theorems above are not
+   expected-peer settings allow the remote (so the theorems above are not
    vacuous), and different prologues always abort both sides *)
 Theorem c01_noise_undisturbed_and_prologue : forall sc,
   wf_scenario sc = true -> undisturbed_b sc = true /\ prologue_b sc = true.
